@@ -132,7 +132,7 @@ impl Scenario for C14 {
                     _ => 0,
                 },
                 seed: r.next_u64(),
-                form: if send { String::new() } else { (*r.pick(&["hdr", "hdr", "hdr", "hdr", "hdr", "pt", "tick"])).to_string() },
+                form: if send { String::new() } else { (*r.pick(&["hdr", "hdr", "hdr", "hdr", "hdr", "hdr", "pt", "tick", "hdr_bad"])).to_string() },
             })
             .collect();
         let p = Plan { kind: if send { "send" } else { "recv" }.to_string(), msgs, universe: *r.pick(&[8u32, 40, 400, 3000]), client: end(r), server: end(r), salt: r.next_u64() };
@@ -166,7 +166,7 @@ impl Scenario for C14 {
             components_stubbed: &["TCP (SimNet)", "EPMD (stub)", "remote node: sender-side atom cache model + independent header writer/reader"],
             assumptions: &["any slot assignment by the sender conforms (the receiver must follow the header); real OTP picks the slot by atom hash", "the order of atoms in this library's own header is seeded through hook H11"],
             fault_prefixes: &["fault.", "net."],
-            expected_probes: &["probe.c14.old_entry_referenced", "probe.c14.slot_overwritten", "probe.c14.segment_above_zero", "probe.c14.segment_seven", "probe.c14.position_differs_from_slot", "probe.c14.long_atoms_even_count", "probe.c14.long_atoms_odd_count", "probe.c14.own_header_read", "probe.c14.own_header_long_atoms", "probe.c14.echo_decoded", "probe.c14.too_many_atoms_rejected", "probe.c14.header_255_atoms"],
+            expected_probes: &["probe.c14.old_entry_referenced", "probe.c14.slot_overwritten", "probe.c14.segment_above_zero", "probe.c14.segment_seven", "probe.c14.position_differs_from_slot", "probe.c14.long_atoms_even_count", "probe.c14.long_atoms_odd_count", "probe.c14.own_header_read", "probe.c14.own_header_long_atoms", "probe.c14.echo_decoded", "probe.c14.too_many_atoms_rejected", "probe.c14.header_255_atoms", "probe.c14.failed_frame_with_intact_header"],
         }
     }
 }
@@ -206,6 +206,16 @@ async fn recv_dir(w: &Arc<World>, p: &Plan) {
                     }
                     if refs.len() == 255 {
                         w.stat("probe.c14.header_255_atoms");
+                    }
+                    if m.form == "hdr_bad" {
+                        // the header is intact and the sender counts its entries as delivered; the terms are cut short
+                        let hdr_len = wire::write_header_body(&refs).len();
+                        let full = wire::with_dist_header(&control, None, &refs);
+                        let keep = 2 + hdr_len + ((full.len() - 2 - hdr_len) / 2).max(1);
+                        frames.push((wire::frame4(&full[..keep]), 0));
+                        expect.push(Expect::Err("intact header, truncated terms".to_string()));
+                        w.stat("probe.c14.failed_frame_with_intact_header");
+                        continue;
                     }
                     frames.push((wire::frame4(&wire::with_dist_header(&control, Some(&payload), &refs)), 0));
                     expect.push(Expect::Ok(control, Some(payload), "distribution header"));
